@@ -302,6 +302,51 @@ NA = {
  "C17": "not applicable to the studied family: byte-level encode/decode fidelity of ~20 formats over all byte strings is grammar restatement, which TLC cannot enumerate; the one behavioural slice (identity of a transaction received in a non-canonical encoding) is reached through C07 (DESIGN.md section 5)",
 }
 
+# additions of later rounds, appended to the level text / level note of the property (DESIGN.md section 10.9)
+EXTRA_TEXT = {
+ "C01": " Later additions: the history generator also produces oracle requests and responses (signed by the currently designated oracle nodes, "
+        "paid from the prepaid GAS, incl. wrong / repeated ids), contracts looking at the ledger's past around the traceability horizon, native "
+        "settings of Oracle / Notary / Management / attribute fees and deep storage spines; LONG-CHAIN worlds (4 000+ blocks, quiet stretch) in which "
+        "the collecting replicas really remove old blocks and transactions, followed by activity that refers to the removed past.",
+ "C03": " Later additions: deep storage spines (a key leaving a 40-60 byte key at every half-byte: proofs with one node per nibble) and a probe "
+        "preferring the longest key; stateroot.Module driven the way storeBlock drives it in the archival trie mode with computed-but-dropped blocks, "
+        "every stored root judged by TLC (MPTRefTrace read predicates) to give back exactly the content committed at its height.",
+ "C04": " Extension events (spec/events, harness/c04events): what core.Blockchain and the mempool deliver to subscribers as a function of the accepted "
+        "blocks - documented per-block order, exactly once in chain order, notifications only of HALTed executions, nothing for refused offers (incl. a "
+        "late storeBlock failure) or header-only additions, delivered = stored, no loss / duplication for other subscribers when one (un)subscribes "
+        "mid fan-out, mempool added/removed laws; EventsImpl (dispatcher-shaped, up to 347k states) and PoolEventsImpl refute seven named deviations; real "
+        "nodes observed with a serial observer and gated episodes, judged by TLC (EventsTrace).",
+ "C05": " Extension gov (spec/governance, harness/c05gov): Election.tla (the election as a pure function of the candidate table: registered, not "
+        "blocked, 20 % turnout, ties by key) and GovJudge.tla (committee in force = Elect(table at the last epoch end), validator answers, fee burns, primary "
+        "reward minus the NotaryAssisted part, committee reward to member h mod n, claims / unclaimedGas within rounding bounds), instantiated with TLC "
+        "integers for the code-shaped model GovImpl (eleven named deviations refuted) and with BigInt limbs for real traces (random, simulated and "
+        "hand-written edge scenarios: tie at the cut, exact turnout, exactly n candidates, block list changes in a quiet epoch).",
+ "C06": " Every other header offer is a BATCH of two (the offered header followed by a header linked to it and signed by its designated validators), "
+        "judged by FollowerOnlyAfterValid / HdrSound.",
+ "C07": " Extension poollife (spec/poollife, harness/c07poollife): proposability over the LIFE of the pool - blocks accepted between poolings change "
+        "what admission depends on (blocked signers, fee per byte incl. the pool's ratchet, execution fee factor, attribute fees, expiry, on-chain "
+        "conflicts both ways, committee change under HighPriority, oracle request answered / oracle and notary nodes re-designated, verification "
+        "contracts updated or destroyed, balances incl. notary deposits); PoolLifeImpl follows verifyAndPoolTx / mempool.Add / RemoveStale / "
+        "IsTxStillRelevant, TLC checks Impl => Proposable on four universes and refutes seven named deviations; after EVERY block of TLC behaviours "
+        "and seeded lives the consensus-style proposal of a real proposer is judged by an independent replica and by TLC (PoolLifeTrace).",
+ "C09": " Later additions: point reads through the same DAO while dao.SeekAsync / System.Storage.Find iterate; contracts with 6-12 items that reach "
+        "the backend before they are iterated through a private DAO (lazy lower scan meets the iterating contract's own reads).",
+ "C10": " Later addition: deep-trie histories (one spine key of 36-68 bytes with a key leaving it at almost every half-byte: proofs of up to "
+        "2*MaxKeyLength+1 nodes), filled by batches, proved, collapsed, reloaded and edited.",
+ "C18": " Extension codec (spec/numcodec, harness/c18codec): fixed-point decimals (any precision incl. above the 10^16 table), Fixed8, Uint160/256 "
+        "byte and string forms and their order, Base58Check and addresses: Decimal.tla / UintN.tla / Base58.tla are the oracle (11 781 enumerated cases "
+        "quick, 20 643 thorough, executed forward and in reverse), the codecs are specified as PURE functions (CodecHistory refined by CodecHistoryImpl "
+        "with decimal.go's power table as memo; eight named deviations refuted) and TLC-generated call histories are replayed each in one fresh process; "
+        "seeded inputs and every single-character change of each address judged by TLC (NumCodecTrace).",
+ "C20": " Later additions: LedgerOnce.tla (AddBlock as one critical section; deviation CheckOutsideLock refuted) bound by rounds in which 2-5 goroutines "
+        "offer decoded copies of the SAME next block (+ a stale one) to the real Blockchain.AddBlock, judged by TLC (StoredExactlyOnce, HeightByOne, "
+        "StateAsReference); stripped-body junk blocks in state sync; two scripted worlds reproducing the listed findings of state-synchronised nodes. "
+        "Extension net (spec/netsync, harness/c20net): the P2P server itself - handshake state machine and the block / header / state-exchange request "
+        "logic of pkg/network/server.go, driven over real loopback TCP connections by scripted fake peers (duplicates, gaps, garbage, silent peers), judged "
+        "by TLC (HandshakeTrace, NetSyncTrace).",
+}
+
+
 def main():
     props = [json.loads(l) for l in open(os.path.join(V, "properties.jsonl"))]
     checks, na = [], []
@@ -309,6 +354,7 @@ def main():
         i = p["id"]
         if i in CHECKS:
             cat, text, ref, note, tech = CHECKS[i]
+            text += EXTRA_TEXT.get(i, "")
             checks.append({
                 "property_id": i,
                 "quick_cmd": "tools/vcheck %s --tier quick" % i,
